@@ -255,6 +255,8 @@ func specOutstanding(a *Association, tsn uint32) bool {
 //@   at store paramReconfigResponse.result assert#in-progress-until-then{C14}
 //@      stored == ite(resetRequest.senderLastTSN == a.payloadQueue.cumulativeTSN || specSerLT32(resetRequest.senderLastTSN, a.payloadQueue.cumulativeTSN), reconfigResultSuccessPerformed, reconfigResultInProgress)
 //@   loop 1 atend assert#reset-stream-is-unregistered{C14} !ok || a.streams[s.streamIdentifier] == nil
+//@   ensures#a-performed-request-is-forgotten{C14} old(resetRequest.senderLastTSN == a.payloadQueue.cumulativeTSN || specSerLT32(resetRequest.senderLastTSN, a.payloadQueue.cumulativeTSN)) ==>
+//@      !has(a.reconfigRequests, resetRequest.reconfigRequestSequenceNumber)
 //@   loop 1 atend assert#unread-bytes-stay-in-the-advertised-window{C11} !ok || s.reassemblyQueue.nBytes == 0
 
 //@ func Association.resetOutgoingStreamSequenceNumbers
@@ -395,4 +397,8 @@ func specChunkWireSize(c *chunkPayloadData) int {
 // ---- C14: the reconfiguration timer keeps running while any reset request is unanswered ----
 
 //@ func Association.handleReconfigParam
+//@   ensures#a-remembered-reset-request-is-still-waiting-for-data{C14} typeIs(raw, (*paramOutgoingResetRequest)(nil)) && result1 == nil &&
+//@      has(a.reconfigRequests, raw.(*paramOutgoingResetRequest).reconfigRequestSequenceNumber) ==>
+//@      old(!(raw.(*paramOutgoingResetRequest).senderLastTSN == a.payloadQueue.cumulativeTSN ||
+//@      specSerLT32(raw.(*paramOutgoingResetRequest).senderLastTSN, a.payloadQueue.cumulativeTSN)))
 //@   at call rtxTimer.stop@2 assert#reconfig-timer-stopped-only-when-nothing-is-outstanding{C14} len(a.reconfigs) == 0
